@@ -277,6 +277,26 @@ def to_hail(t):
     raise HarnessError(f'to_hail: {t!r}')
 
 
+def canon(t, under_array=False):
+    """HailType -> comparable form.  The field ORDER of a struct obtained by unifying the element types of a list is
+    not fixed by the property (the front end iterates over a Python set of types there), so structs that are array
+    elements are compared with their fields sorted; everywhere else order matters."""
+    if isinstance(t, tstruct):
+        fs = [(k, canon(v)) for k, v in t.items()]
+        return ('struct', tuple(sorted(fs) if under_array else fs))
+    if isinstance(t, tarray):
+        return ('array', canon(t.element_type, True))
+    if isinstance(t, ttuple):
+        return ('tuple', tuple(canon(x) for x in t.types))
+    if isinstance(t, tdict):
+        return ('dict', canon(t.key_type), canon(t.value_type))
+    return str(t)
+
+
+def same_type(a, b):
+    return canon(a) == canon(b)
+
+
 def final_want(sk, region):
     w = want(sk, region)
     if w is REJECT or has_hole(w):
